@@ -416,6 +416,124 @@ impl Ctx {
         true
     }
 
+
+    /// Run a coverage-guided libFuzzer campaign on `target` (binaries built by ./check under
+    /// /verif/target/fuzz): `procs` processes with seeds derived from VERIF_SEED, fresh corpus
+    /// directories, the committed seed corpus as second directory, `runs_each` executions each.
+    /// The semantic oracle lives inside the target; a crash artifact becomes the replay file.
+    pub fn run_fuzz(&self, name: &str, target: &str, runs_each: u64, max_len: u32, rule: &str) -> bool {
+        let t0 = Instant::now();
+        let bin = format!("{VERIF_DIR}/target/fuzz/x86_64-unknown-linux-gnu/release/{target}");
+        if !std::path::Path::new(&bin).exists() {
+            eprintln!("INCONCLUSIVE: fuzz target {bin} not built");
+            std::process::exit(2);
+        }
+        let procs = self.threads.clamp(1, 8);
+        let art = format!("{VERIF_DIR}/replays/");
+        let _ = std::fs::create_dir_all(&art);
+        let mut children = vec![];
+        for i in 0..procs {
+            let corpus = format!("{VERIF_DIR}/target/fuzzcorpus/{}-{}-{}-{}", self.property, target, self.seed_env(), i);
+            let _ = std::fs::remove_dir_all(&corpus);
+            let _ = std::fs::create_dir_all(&corpus);
+            let seed = (seed_for(self.seed, name, i as u64) % 0xffff_fffe) + 1;
+            let child = std::process::Command::new(&bin)
+                .arg(format!("-runs={runs_each}"))
+                .arg(format!("-seed={seed}"))
+                .arg("-len_control=0")
+                .arg(format!("-max_len={max_len}"))
+                .arg("-timeout=60")
+                .arg("-print_final_stats=1")
+                .arg(format!("-artifact_prefix={art}fuzz-{target}-"))
+                .arg(&corpus)
+                .arg(format!("{VERIF_DIR}/fuzz/seeds/{target}"))
+                .current_dir(format!("{VERIF_DIR}/target"))
+                .stdin(std::process::Stdio::null())
+                .stdout(std::process::Stdio::null())
+                .stderr(std::process::Stdio::piped())
+                .spawn();
+            match child {
+                Ok(c) => children.push((c, corpus)),
+                Err(e) => {
+                    eprintln!("INCONCLUSIVE: cannot start fuzz target: {e}");
+                    std::process::exit(2);
+                }
+            }
+        }
+        let mut stats = Stats::default();
+        let mut ok = true;
+        let mut total_runs = 0u64;
+        let mut corpus_total = 0u64;
+        let mut cov = 0u64;
+        for (child, corpus) in children {
+            let out = match child.wait_with_output() {
+                Ok(o) => o,
+                Err(e) => {
+                    eprintln!("INCONCLUSIVE: fuzz process failed: {e}");
+                    std::process::exit(2);
+                }
+            };
+            let err = String::from_utf8_lossy(&out.stderr).to_string();
+            for l in err.lines() {
+                if let Some(r) = l.strip_prefix("stat::number_of_executed_units:") {
+                    total_runs += r.trim().parse::<u64>().unwrap_or(0);
+                }
+                if l.contains(" cov: ") {
+                    if let Some(c) = l.split(" cov: ").nth(1).and_then(|x| x.split_whitespace().next()).and_then(|x| x.parse::<u64>().ok()) {
+                        cov = cov.max(c);
+                    }
+                }
+            }
+            let files: Vec<_> = std::fs::read_dir(&corpus).map(|d| d.flatten().collect()).unwrap_or_default();
+            corpus_total += files.len() as u64;
+            for (k, f) in files.iter().enumerate() {
+                if let Ok(bytes) = std::fs::read(f.path()) {
+                    stats.nontrivial.insert(crate::led::hash_str(&String::from_utf8_lossy(&bytes)));
+                    if k < 1 && stats.nt_samples.len() < 2 {
+                        stats.nt_samples.push(serde_json::json!({"corpus_entry_bytes": bytes.len(), "head": String::from_utf8_lossy(&bytes[..bytes.len().min(120)]).to_string()}));
+                    }
+                }
+            }
+            let _ = std::fs::remove_dir_all(&corpus);
+            if !out.status.success() {
+                if let Some(path) = err.lines().find_map(|l| l.split("Test unit written to ").nth(1)) {
+                    let path = path.trim().to_string();
+                    if err.contains("ORACLE FAILURE") {
+                        let why = err.lines().find(|l| l.contains("ORACLE FAILURE")).unwrap_or("").to_string();
+                        self.violated.store(true, Ordering::SeqCst);
+                        println!("--- violation detail (fuzz target {target}) ---\n{}", why.chars().take(3000).collect::<String>());
+                        println!("VIOLATION property={} replay={}", self.property, path);
+                        ok = false;
+                    } else if err.contains("ALARM") || err.contains("timeout") {
+                        eprintln!("INCONCLUSIVE: fuzz target {target} hit the per-input watchdog ({path})");
+                        std::process::exit(2);
+                    } else {
+                        // a crash outside the oracle: a panic of the code under test escaping the guards
+                        self.violated.store(true, Ordering::SeqCst);
+                        println!("--- violation detail (fuzz target {target}) ---\ncrash outside the oracle:\n{}", err.lines().rev().take(15).collect::<Vec<_>>().join("\n"));
+                        println!("VIOLATION property={} replay={}", self.property, path);
+                        ok = false;
+                    }
+                } else {
+                    eprintln!("INCONCLUSIVE: fuzz target {target} exited with {:?} without an artifact:\n{}", out.status.code(), err.lines().rev().take(8).collect::<Vec<_>>().join("\n"));
+                    std::process::exit(2);
+                }
+            }
+        }
+        stats.evaluations = total_runs;
+        stats.classes.insert("coverage_edges".into(), cov);
+        stats.classes.insert("corpus_entries".into(), corpus_total);
+        stats.classes.insert("processes".into(), procs as u64);
+        self.sub.lock().unwrap().push(SubReport {
+            name: name.to_string(),
+            stats,
+            rule: rule.to_string(),
+            exhaustive: false,
+            wall_s: t0.elapsed().as_secs_f64(),
+        });
+        ok
+    }
+
     /// Run a deterministic enumeration (exhaustive sub-check).
     pub fn run_enum<C, I, F>(&self, name: &str, rule: &str, items: I, check: F) -> bool
     where
